@@ -1,4 +1,5 @@
 import VarmqVerif.Proofs.Sig
+import VarmqVerif.Proofs.Sig2
 import VarmqVerif.Proofs.Res
 import VarmqVerif.Tie.Facts
 /-!
@@ -37,5 +38,23 @@ theorem asleep_min_parallel {s : Sig.State} (h : Sig.Reach s) (ha : Sig.Asleep s
     release — no job sits in Processing without a goroutine -/
 theorem slots_accounted {s : Res.State} (h : Res.Reach s) : s.cur = s.nRes + s.nHold + s.handed + s.nExec + s.nDone :=
   Res.acc_inv h
+
+/-- the same across Stop and Restart (model `Sig2`: any number of signal channels and event loops, the
+    previous run's event loop possibly still in the middle of an activation, notify() on the nil
+    channel of a stopped worker swallowed): dispatchable work is covered by a token on the *current*
+    channel, an owed notify(), or an event loop that will evaluate its condition again -/
+theorem no_lost_wakeup_across_restarts {s : Sig2.State} (h : Sig2.Reach s) (hd : Sig2.Dispatchable s) :
+    Sig2.TokCur s ∨ 0 < s.nOwes ∨ ∃ d, (s.dph d).willEval = true := Sig2.no_lost_wakeup h hd
+
+/-- … and when nothing is owed and no event loop is active, the token lies on an open channel on
+    which a live event loop listens -/
+theorem token_has_listener {s : Sig2.State} (h : Sig2.Reach s) (h0 : s.nOwes = 0)
+    (hq : ∀ d, (s.dph d).willEval = false) (hd : Sig2.Dispatchable s) : Sig2.TokCur s ∧ Sig2.Listening s :=
+  Sig2.asleep_not_dispatchable h h0 hq hd
+
+/-- the non-blocking send is always possible, also on the nil channel of a stopped worker -/
+theorem notify_never_blocks_across_restarts {s : Sig2.State} (h : Sig2.Reach s) (g : Nat) :
+    ∃ s', Sig2.step s (.notify g (match s.chan with | some ch => !s.tok ch | none => false)) = .ok s' :=
+  Sig2.notify_enabled h g
 
 end VarmqVerif.Props.C03
